@@ -194,6 +194,20 @@ func (env *specEnv) resolveType(text string) types.Type {
 	return nil
 }
 
+func (env *specEnv) findNamedType(path, name string) types.Type {
+	for _, p := range env.eng.prog.Pkgs {
+		cands := append([]*types.Package{p.Types}, p.Types.Imports()...)
+		for _, c := range cands {
+			if c.Path() == path {
+				if o := c.Scope().Lookup(name); o != nil {
+					return o.Type()
+				}
+			}
+		}
+	}
+	return nil
+}
+
 func (env *specEnv) findPkg(name string) *types.Package {
 	if env.pkg != nil {
 		// well-known import aliases first (v1 is ambiguous by package name)
@@ -935,6 +949,29 @@ func (env *specEnv) evalCall(c *ECall) sval {
 				return sval{t: fmt.Sprintf("(atoi_ok %s)", env.rv(x)), typ: tBool}
 			}
 			return sval{t: fmt.Sprintf("(atoi_val %s)", env.rv(x)), typ: tInt}
+		case "selMatches":
+			// selMatches(selector, labelsMap): the (assumed deterministic) label-selector match
+			vc.decl("fn:selMatches", "(declare-fun selMatches (Iface Iface) Bool)")
+			a, b := env.eval(c.Args[0]), env.eval(c.Args[1])
+			bt := env.rv(b)
+			if _, isMap := b.typ.Underlying().(*types.Map); isMap && env.eng.topFrame != nil {
+				if lt := env.findNamedType("k8s.io/apimachinery/pkg/labels", "Set"); lt != nil {
+					bt = env.eng.topFrame.makeIface(bt, lt)
+				}
+			}
+			return sval{t: fmt.Sprintf("(selMatches %s %s)", env.rv(a), bt), typ: tBool}
+		case "ceildiv":
+			// ceildiv(x, k) for a positive literal k: the ceiling of x/k
+			x, k := env.eval(c.Args[0]), env.eval(c.Args[1])
+			return sval{t: fmt.Sprintf("(- (div (- %s) %s))", env.rv(x), env.rv(k)), typ: tInt}
+		case "pct_ok", "pct_val":
+			vc.decl("fn:pct_ok", "(declare-fun pct_ok (Str) Bool)")
+			vc.decl("fn:pct_val", "(declare-fun pct_val (Str) Int)")
+			x := env.eval(c.Args[0])
+			if id.Name == "pct_ok" {
+				return sval{t: fmt.Sprintf("(pct_ok %s)", env.rv(x)), typ: tBool}
+			}
+			return sval{t: fmt.Sprintf("(pct_val %s)", env.rv(x)), typ: tInt}
 		case "pdur_ok", "pdur_val":
 			declPdur(vc)
 			x := env.eval(c.Args[0])
@@ -946,6 +983,17 @@ func (env *specEnv) evalCall(c *ECall) sval {
 			declGvstr(vc)
 			a, b := env.eval(c.Args[0]), env.eval(c.Args[1])
 			return sval{t: fmt.Sprintf("(gvstr %s %s)", env.coerce(a, tString), env.coerce(b, tString)), typ: tString}
+		case "cron_ok", "cronSched", "cronHit", "sprintf1":
+			vc.decl("fn:cron_ok", "(declare-fun cron_ok (Str) Bool)")
+			vc.decl("fn:cronSched", "(declare-fun cronSched (Str) Iface)")
+			vc.decl("fn:cronHit", "(declare-fun cronHit (Iface Int) Bool)")
+			vc.decl("fn:sprintf1", "(declare-fun sprintf1 (Str Str) Str)")
+			var ts []Term
+			for _, a := range c.Args {
+				ts = append(ts, env.rv(env.eval(a)))
+			}
+			rt := map[string]types.Type{"cron_ok": tBool, "cronHit": tBool, "sprintf1": tString, "cronSched": types.Universe.Lookup("error").Type()}[id.Name]
+			return sval{t: app(id.Name, ts...), typ: rt}
 		case "itoa":
 			declAtoi(vc)
 			x := env.eval(c.Args[0])
@@ -985,7 +1033,19 @@ func (env *specEnv) evalCall(c *ECall) sval {
 			}
 			rec := env.fr.findDominatingCall(at.Pat)
 			if rec == nil || rec.After == nil {
-				env.fail("atcall(@%s): no dominating call matches", at.Pat)
+				// some matching call exists but does not dominate this point: evaluate in an arbitrary state
+				for _, r := range eng.callLog {
+					if patMatches(at.Pat, r.Name) && r.After != nil {
+						rec = &CallRec{After: &State{pc: "true", heap: map[string]Term{}, alloc: env.st.alloc}}
+						for c := range eng.compSort {
+							rec.After.heap[c] = vc.freshAlways("nondom$"+c, eng.compSort[c])
+						}
+						break
+					}
+				}
+				if rec == nil || rec.After == nil {
+					env.fail("atcall(@%s): no call matches", at.Pat)
+				}
 			}
 			sub := *env
 			sub.st = rec.After
@@ -1154,8 +1214,96 @@ func (env *specEnv) lookupPure(name string) *PureFn {
 	return env.eng.cs.Pures[name]
 }
 
+type recInfo struct {
+	sym, sym0 string
+	comps     []string
+	rt        types.Type
+	declaring bool
+}
+
+// callRec: application of a recursive spec function. The function symbol takes the heap components
+// its body reads as extra arguments; its defining axiom unfolds one step (calls inside the body go to
+// the fuel-0 twin, which has no unfolding axiom but is equal to the function on the same arguments).
+func (env *specEnv) callRec(pf *PureFn, args []Expr) sval {
+	e := env.eng
+	vc := e.vc
+	if e.recFns == nil {
+		e.recFns = map[string]*recInfo{}
+	}
+	key := pf.Pkg.Path() + "." + pf.Name
+	ri := e.recFns[key]
+	sub := *env
+	sub.pkg = pf.Pkg
+	sub.con = nil
+	var ptypes []types.Type
+	for _, p := range pf.Params {
+		ptypes = append(ptypes, sub.resolveType(p.Type))
+	}
+	if ri == nil {
+		ri = &recInfo{sym: sym("rec$" + pf.Name), sym0: sym("rec0$" + pf.Name), rt: sub.resolveType(pf.Result), declaring: true}
+		e.recFns[key] = ri
+		// evaluate the body once over bound heap variables and bound parameters
+		binder := &heapBinder{}
+		bst := &State{pc: "true", heap: map[string]Term{}, alloc: "alloc@0", binder: binder}
+		benv := &specEnv{eng: e, fr: env.fr, fn: env.fn, st: bst, old: bst, vars: map[string]binding{}, pkg: pf.Pkg}
+		var pdecl []string
+		var pnames []Term
+		for i, p := range pf.Params {
+			n := sym(fmt.Sprintf("rq$%s", p.Name))
+			benv.vars[p.Name] = binding{n, ptypes[i]}
+			pdecl = append(pdecl, fmt.Sprintf("(%s %s)", n, vc.sortOf(ptypes[i])))
+			pnames = append(pnames, n)
+		}
+		vc.noname++
+		bv := benv.eval(pf.Body)
+		body := benv.coerce(bv, ri.rt)
+		vc.noname--
+		ri.declaring = false
+		ri.comps = binder.comps
+		var hdecl, hsorts []string
+		for i, c := range binder.comps {
+			hdecl = append(hdecl, fmt.Sprintf("(%s %s)", binder.names[i], e.compSort[c]))
+			hsorts = append(hsorts, e.compSort[c])
+		}
+		var psorts []string
+		for _, t := range ptypes {
+			psorts = append(psorts, vc.sortOf(t))
+		}
+		allSorts := strings.Join(append(hsorts, psorts...), " ")
+		rs := vc.sortOf(ri.rt)
+		vc.decls = append(vc.decls, fmt.Sprintf("(declare-fun %s (%s) %s)", ri.sym, allSorts, rs), fmt.Sprintf("(declare-fun %s (%s) %s)", ri.sym0, allSorts, rs))
+		allArgs := strings.Join(append(append([]string{}, binder.names...), pnames...), " ")
+		allDecl := strings.Join(append(hdecl, pdecl...), " ")
+		// recursive applications inside the body were emitted with the placeholder heap "@rec@"
+		body = strings.ReplaceAll(body, "("+ri.sym+" @rec@", "("+ri.sym0+" "+strings.Join(binder.names, " "))
+		vc.decls = append(vc.decls,
+			fmt.Sprintf("(assert (forall (%s) (! (= (%s %s) %s) :pattern ((%s %s)))))", allDecl, ri.sym, allArgs, body, ri.sym, allArgs),
+			fmt.Sprintf("(assert (forall (%s) (! (= (%s %s) (%s %s)) :pattern ((%s %s)))))", allDecl, ri.sym, allArgs, ri.sym0, allArgs, ri.sym, allArgs))
+	}
+	var ats []Term
+	for i := range pf.Params {
+		a := env.eval(args[i])
+		ats = append(ats, env.coerce(a, ptypes[i]))
+	}
+	if ri.declaring {
+		// recursive call inside the body being declared: heap arguments are filled in afterwards
+		return sval{t: fmt.Sprintf("(%s @rec@ %s)", ri.sym, strings.Join(ats, " ")), typ: ri.rt}
+	}
+	var hs []Term
+	for _, c := range ri.comps {
+		hs = append(hs, e.get(env.st, c))
+	}
+	return sval{t: app(ri.sym, append(hs, ats...)...), typ: ri.rt}
+}
+
 func (env *specEnv) callPure(pf *PureFn, args []Expr) sval {
 	vc := env.eng.vc
+	if pf.Rec {
+		if len(args) != len(pf.Params) {
+			env.fail("%s: expected %d arguments", pf.Name, len(pf.Params))
+		}
+		return env.callRec(pf, args)
+	}
 	if len(args) != len(pf.Params) {
 		env.fail("%s: expected %d arguments", pf.Name, len(pf.Params))
 	}
